@@ -1,3 +1,78 @@
-From Thunder Require Import Lib.Json Gql.Types Gql.Value Gql.Query Gql.Ref Gql.Exec Gql.Envelope.
-Theorem placeholder : True. Proof. exact I. Qed.
-Print Assumptions placeholder.
+(** C16: a failing resolver fails the whole query; clients only see sanitised errors.
+    Statements only; proofs are in Gql/ProofsSched.v, Gql/ProofsErr.v. *)
+From Coq Require Import List String Bool Arith Permutation.
+From Thunder Require Import Lib.Json Gql.Types Gql.Value Gql.Query Gql.Ref Gql.Exec Gql.Check Gql.Envelope
+  Gql.ProofsSched Gql.ProofsErr.
+Import ListNotations.
+Open Scope string_scope.
+Open Scope list_scope.
+
+(** (i)+(ii), relative to the forest of work units: for every schedule, if some unit of the forest
+    under the initial units raises a failure, the completed run returns an error, one of those raised
+    (first in schedule order); if none does, it returns data.
+
+    FULL STATEMENT, of which this is the part proved:
+      needed_failures S fuel q root <> [] ->
+        exists f, In f (needed_failures S fuel q root) /\ run fixed S fuel sched q root = Some (RErr f')
+        with f' = f up to the list indices of a failing batch unit's first destination
+      needed_failures S fuel q root = [] -> run ... = Some (ROk (fst (eval_ref S fuel q root)))
+    Missing: the failures the forest raises are exactly (up to that index rule) the needed failures of
+    eval_ref, i.e. the same lemma C01 lacks (forest = eval_ref).  The executable model is tested
+    against it on every run (Gql/Check.v: obs_matches_run / obs_matches_ref). *)
+Theorem failing_unit_fails_query_partial : forall Q S fuel rf st0 rs,
+  Forall2 (P Q S fuel) (st_pending st0) rs -> st_err st0 = None ->
+  NoDup (map fst (st_heap st0 ++ heaps rs)) ->
+  forall sched, complete (run_sched Q S fuel sched st0) = true ->
+    match errs rs with
+    | [] => exists j, finish rf (run_sched Q S fuel sched st0) = Some (ROk j)
+    | _ => exists e, In e (errs rs) /\ finish rf (run_sched Q S fuel sched st0) = Some (RErr e)
+    end.
+Proof.
+  intros Q S fuel rf st0 rs HF He Hnd sched Hc.
+  pose proof (ProofsSched.result_independent_of_schedule Q S fuel rf st0 rs HF He Hnd sched Hc) as H.
+  destruct (errs rs); [eexists; exact H | exact H].
+Qed.
+Print Assumptions failing_unit_fails_query_partial.
+
+(** errorRecorder: once a failure is recorded no later step replaces it. *)
+Theorem first_failure_is_kept : forall Q S fuel sched st e,
+  st_err st = Some e -> st_err (run_sched Q S fuel sched st) = Some e.
+Proof. exact ProofsSched.run_err_stable. Qed.
+Print Assumptions first_failure_is_kept.
+
+(** (iii) Execute returns data or an error, never both: data only if nothing was recorded. *)
+Theorem error_or_data_exclusive : forall rf st r,
+  finish rf st = Some r ->
+  match r with
+  | ROk j => st_err st = None /\ complete st = true
+  | RErr e => st_err st = Some e /\ complete st = true
+  end.
+Proof. exact ProofsErr.finish_exclusive. Qed.
+Print Assumptions error_or_data_exclusive.
+
+(** The recorded error carries the response path unless it is client-safe. *)
+Theorem path_unless_safe : forall p e,
+  nest p e = if safe e then mk_perr e [] else mk_perr e p.
+Proof. intros p e. unfold nest. destruct (safe e); reflexivity. Qed.
+Print Assumptions path_unless_safe.
+
+(** (iv) Every error envelope the connection writes for a subscription's first computation carries
+    the error's text only if it is marked safe, the fixed generic message otherwise. *)
+Theorem envelope_message_sanitised : forall id r id' m,
+  In (WError id' m) (subscribe_initial id r) ->
+  exists e, r = RErr e /\ id' = id /\
+            m = if safe (pe_err e) then e_text (pe_err e) else "Internal server error".
+Proof. exact ProofsErr.subscribe_initial_messages. Qed.
+Print Assumptions envelope_message_sanitised.
+
+(** An initially failing subscription yields exactly one error envelope, then its closure. *)
+Theorem failing_subscription_reported_once_then_closed : forall id e,
+  subscribe_initial id (RErr e) = [WError id (sanitize e); WClosed id].
+Proof. exact ProofsErr.subscribe_initial_error. Qed.
+Print Assumptions failing_subscription_reported_once_then_closed.
+
+Example hypotheses_satisfiable :
+  sanitize (nest [PKey "a"; PIdx 1] (mk_err EPlain "secret")) = "Internal server error" /\
+  sanitize (nest [PKey "a"; PIdx 1] (mk_err EWrapped "shown")) = "shown" /\
+  pe_path (nest [PKey "a"; PIdx 1] (mk_err EPanic "boom")) = [PKey "a"; PIdx 1].
+Proof. repeat split. Qed.
